@@ -238,6 +238,22 @@ def pre_state(kind, name, data, truth):
     return "agree"
 
 
+def has_return_entry(node, kind):
+    """Does the truth definition carry a return entry?  (judged on the plain syntax tree)"""
+    if node is None:
+        return None
+    if kind == "class":
+        return any("return_type" in resolver._targets(s) for s in node.body)
+    if getattr(node, "returns", None) is not None:
+        return True
+    for s in node.body:
+        if isinstance(s, ast.Return) and s.value is not None:
+            if kind == "argparse_function":
+                return isinstance(s.value, ast.Tuple)
+            return True
+    return False
+
+
 def enclosing_state(kind, name, data):
     """For a method target: does the file define the enclosing class?  (present | absent | n/a)"""
     if kind != "function" or "." not in name:
@@ -306,7 +322,8 @@ def oracles_sync(op, S0, S1, out, hist, stats):
                     break
             ck, cn, cf = culprit if culprit else (op["truth"], "", "")
             common = dict(exc=out.get("exc", "exit%s" % out.get("code")), site=out.get("site"),
-                          target_kind=target_kind(ck, cn) if culprit else None, pre_state=pres.get((ck, cf)))
+                          target_kind=target_kind(ck, cn) if culprit else None, pre_state=pres.get((ck, cf)),
+                          has_returns=has_return_entry(truth.get("node"), op["truth"]))
             v.append(viol("C20", "O4-accepted-not-carried-out", op,
                           "fault-free sync ended with %s %s at %s: %s" % (out["status"], out.get("exc", out.get("code")), out.get("site"), out.get("msg", out.get("stderr", ""))[:200]),
                           **common))
